@@ -202,8 +202,16 @@ def gen_world_case(rng, i):
         items.append([v, [[p[0], p[1]]]])
     for k, v in corner_listed.items():
         items.append([v, [[poly[k][0], poly[k][1]]]])
+    base_late_corners = set()
     if base is not None:
-        pass
+        # the point-less [value] entry sets the polygon corners wherever it stands in the list: it must leave every listed interior
+        # point alone; a corner listed in front of it is set twice (which of the two wins is not documented: not judged)
+        rest = items[1:]
+        rng.shuffle(rest)
+        pos = rng.randrange(len(rest) + 1) if rng.random() < 0.5 else 0
+        items = rest[:pos] + [[base]] + rest[pos:]
+        early = [tuple(it[1][0]) for it in rest[:pos]]
+        base_late_corners = set(k for k in corner_listed if (poly[k][0], poly[k][1]) in early)
     else:
         rng.shuffle(items)
     ftype = rng.choice(['continental plate', 'oceanic plate', 'mantle layer'])
@@ -242,6 +250,8 @@ def gen_world_case(rng, i):
         probe('listed', p, v)
     if not sph:
         for k, p in enumerate(poly):
+            if k in base_late_corners:
+                continue
             if k in corner_listed:
                 probe('listed-corner', p, corner_listed[k], {'zero': p[0] == 0.0 or p[1] == 0.0})
             elif base is not None:
@@ -255,7 +265,7 @@ def gen_world_case(rng, i):
     # bounds at random interior points (only when every nodal value is finite)
     finite = [v for v in node_values.values() if v < 1e300]
     if len(finite) == len(node_values):
-        vmin, vmax = min(finite), max(finite)
+        vmin, vmax = min(finite + ([base] if base_late_corners else [])), max(finite + ([base] if base_late_corners else []))
         x0, y0, x1, y1 = wg.poly_bbox(poly)
         n = 0
         tries = 0
